@@ -99,6 +99,53 @@ def optflow(run, fx):
         run.held('OPTFLOW', 'dumbRendering unused', '', 'tested nowhere', False)
 
 
+
+API_OPTION_POS = {'gr_make_face_with_ops': 2, 'gr_make_face': 2, 'gr_make_face_with_seg_cache_and_ops': 3, 'gr_make_face_with_seg_cache': 3,
+                  'gr_make_file_face': 1, 'gr_make_file_face_with_seg_cache': 2}
+
+
+def optentry(run, fx):
+    """which parameter of each face-construction entry point reaches the options word of gr_make_face_with_ops: exactly the one the
+    public header calls faceOptions (position table above), through however many forwarding helpers"""
+    flows = {('gr_make_face_with_ops', 2)}
+    changed = True
+    rounds = 0
+    while changed and rounds < 8:
+        changed = False
+        rounds += 1
+        for fn in fx.all_fns():
+            if not fn.file.endswith(('gr_face.cpp', 'gr_font.cpp', 'Face.cpp', 'FileFace.cpp')):
+                continue
+            pv = {p_['vid']: i for i, p_ in enumerate(fn.f.get('params') or [])}
+            for _, e in fn.elements():
+                if e['k'] not in ('CallExpr', 'CXXMemberCallExpr') or not e.get('fq'):
+                    continue
+                for (cq, j) in list(flows):
+                    if e['fq'] != cq:
+                        continue
+                    args = [a for a in (e.get('args') or [])]
+                    if j >= len(args) or args[j] is None:
+                        continue
+                    a = fn.deref(args[j])
+                    if a['k'] == 'DeclRefExpr' and a.get('vid') in pv and (fn.q, pv[a['vid']]) not in flows:
+                        flows.add((fn.q, pv[a['vid']]))
+                        changed = True
+    for api, pos in sorted(API_OPTION_POS.items()):
+        fns = fx.fns_named(api)
+        if not fns:
+            if api.startswith('gr_make_file_face') and 'FileFace.cpp' not in fx.raw['units']:
+                continue
+            run.broken('OPTFLOW', 'options parameter of %s' % api, 'entry point not found')
+            continue
+        got = sorted(i for (q, i) in flows if q == api)
+        inst = 'options parameter of %s' % api
+        if got == [pos]:
+            run.held('OPTFLOW', inst, fns[0].where(), 'parameter #%d (faceOptions) and no other reaches the options word' % pos)
+        else:
+            run.violated('OPTFLOW', inst, fns[0].where(), 'the options word of the face built by %s comes from parameter(s) %s, the header says parameter #%d (faceOptions): '
+                         'the face is built with options the caller did not ask for (e.g. not preloaded although gr_face_preloadAll was passed)' % (api, got, pos))
+
+
 def loadersib(run, fx):
     for q in ('graphite2::GlyphCache::Loader::read_glyph', 'graphite2::GlyphCache::Loader::read_box'):
         us = sorted(set(f.q for f, _ in callers_of(fx, q)))
@@ -172,6 +219,7 @@ def filesib(run, fx):
 def run(run):
     fx = run.facts('Q0')
     optflow(run, fx)
+    optentry(run, fx)
     loadersib(run, fx)
     lazyaccess(run, fx)
     filesib(run, fx)
